@@ -274,38 +274,10 @@ pub(crate) mod kani_verif {
             }
         };
     }
-    macro_rules! protocol_harness_fixed {
-        ($name:ident, $first:expr) => {
-            #[kani::proof]
-            #[kani::stub(zeroize::optimization_barrier, no_barrier)]
-            #[kani::stub(<[u8; 32] as tinyvec::Array>::default, fast_default)]
-            #[kani::stub(crate::hss::definitions::HssPrivateKey::from, stub_hss_from)]
-            #[kani::stub(crate::hss::signing::HssSignature::sign, stub_hss_sign)]
-            #[kani::stub(crate::hss::signing::HssSignature::to_binary_representation, stub_sig_to_bytes)]
-            #[kani::stub(crate::hss::reference_impl_private_key::ReferenceImplPrivateKey::increment, crate::hss::reference_impl_private_key::kani_verif::contract_outer_increment)]
-            #[kani::unwind(36)]
-            fn $name() {
-                check_sign_protocol_with(false, 1, Some($first));
-            }
-        };
-    }
     // ---- quick tier: 2-level build (smallest structures); thorough tier: default 8-level capacity (config w8)
-    // The six harnesses c04_core_l1_h* are c04_core_l1 split by the (only) parameter byte: in this build the valid 1-level lists
-    // are LMS H2(hook)/H5/H10/H15/H20/H25 x LM-OTS W8, i.e. the bytes 0x14, 0x54, 0x64, 0x74, 0x84, 0x94; everything else
-    // (counter, seed, message, callback verdict) stays symbolic. Together they cover exactly what c04_core_l1 covers, in parallel.
-    // @h name=c04_core_l1_h2 props=C04,C11,C05,C03 tier=quick kind=proved cfg=L2w8 timeout=1500 kani_args="--no-memory-safety-checks --no-undefined-function-checks" funcs=hss_sign_core;ReferenceImplPrivateKey::from_binary_representation;ReferenceImplPrivateKey::to_binary_representation;CompressedParameterSet::to contract="c04_core_l1 for parameter byte 0x14 (H2 hook / W8): Ok => callback invoked exactly once, after signing, returned Ok, argument == successor blob (counter+1 / wiped); callback Err => Err; any failure => callback not invoked; every counter, seed, message"
-    protocol_harness_fixed!(c04_core_l1_h2, 0x14u8);
-    // @h name=c04_core_l1_h5 props=C04,C11,C05,C03 tier=quick kind=proved cfg=L2w8 timeout=1500 kani_args="--no-memory-safety-checks --no-undefined-function-checks" funcs=hss_sign_core;ReferenceImplPrivateKey::from_binary_representation;ReferenceImplPrivateKey::to_binary_representation;CompressedParameterSet::to contract="same, parameter byte 0x54 (H5 / W8)"
-    protocol_harness_fixed!(c04_core_l1_h5, 0x54u8);
-    // @h name=c04_core_l1_h10 props=C04,C11,C05,C03 tier=quick kind=proved cfg=L2w8 timeout=1500 kani_args="--no-memory-safety-checks --no-undefined-function-checks" funcs=hss_sign_core;ReferenceImplPrivateKey::from_binary_representation;ReferenceImplPrivateKey::to_binary_representation;CompressedParameterSet::to contract="same, parameter byte 0x64 (H10 / W8)"
-    protocol_harness_fixed!(c04_core_l1_h10, 0x64u8);
-    // @h name=c04_core_l1_h15 props=C04,C11,C05,C03 tier=quick kind=proved cfg=L2w8 timeout=1500 kani_args="--no-memory-safety-checks --no-undefined-function-checks" funcs=hss_sign_core;ReferenceImplPrivateKey::from_binary_representation;ReferenceImplPrivateKey::to_binary_representation;CompressedParameterSet::to contract="same, parameter byte 0x74 (H15 / W8)"
-    protocol_harness_fixed!(c04_core_l1_h15, 0x74u8);
-    // @h name=c04_core_l1_h20 props=C04,C11,C05,C03 tier=quick kind=proved cfg=L2w8 timeout=1500 kani_args="--no-memory-safety-checks --no-undefined-function-checks" funcs=hss_sign_core;ReferenceImplPrivateKey::from_binary_representation;ReferenceImplPrivateKey::to_binary_representation;CompressedParameterSet::to contract="same, parameter byte 0x84 (H20 / W8)"
-    protocol_harness_fixed!(c04_core_l1_h20, 0x84u8);
-    // @h name=c04_core_l1_h25 props=C04,C11,C05,C03 tier=quick kind=proved cfg=L2w8 timeout=1500 kani_args="--no-memory-safety-checks --no-undefined-function-checks" funcs=hss_sign_core;ReferenceImplPrivateKey::from_binary_representation;ReferenceImplPrivateKey::to_binary_representation;CompressedParameterSet::to contract="same, parameter byte 0x94 (H25 / W8)"
-    protocol_harness_fixed!(c04_core_l1_h25, 0x94u8);
-    // @h name=c04_core_l1 props=C04,C11,C05,C03 tier=quick kind=proved cfg=L2w8 timeout=1500 kani_args="--no-memory-safety-checks --no-undefined-function-checks" funcs=hss_sign_core;ReferenceImplPrivateKey::from_binary_representation;ReferenceImplPrivateKey::to_binary_representation;CompressedParameterSet::to contract="(callee ReferenceImplPrivateKey::increment by its contract, proved in c05_outer_inc_*) Ok => callback invoked exactly once, after signing, returned Ok, argument == successor blob (counter+1 / wiped); callback Err => Err; any failure => callback not invoked; every key blob with a valid 1-level list"
+    // @h name=c04_core_l1_L1h5 props=C04,C11,C05,C03 tier=quick kind=proved cfg=L1h5w8 timeout=1500 kani_args="--no-memory-safety-checks --no-undefined-function-checks" funcs=hss_sign_core;ReferenceImplPrivateKey::from_binary_representation;ReferenceImplPrivateKey::to_binary_representation;CompressedParameterSet::to contract="the same protocol contract in the smallest build (1 level, height <= 5, W8; signature buffer 1.3 kB instead of 3.9 kB): every key blob with a valid 1-level list, every counter, seed, message, callback verdict. The control flow of hss_sign_core does not depend on the build limits; the 2-level build runs in the thorough tier (c04_core_l1)"
+    protocol_harness!(c04_core_l1_L1h5, false, 1);
+    // @h name=c04_core_l1 props=C04,C11,C05,C03 tier=thorough kind=proved cfg=L2w8 timeout=1500 kani_args="--no-memory-safety-checks --no-undefined-function-checks" funcs=hss_sign_core;ReferenceImplPrivateKey::from_binary_representation;ReferenceImplPrivateKey::to_binary_representation;CompressedParameterSet::to contract="(callee ReferenceImplPrivateKey::increment by its contract, proved in c05_outer_inc_*) Ok => callback invoked exactly once, after signing, returned Ok, argument == successor blob (counter+1 / wiped); callback Err => Err; any failure => callback not invoked; every key blob with a valid 1-level list"
     protocol_harness!(c04_core_l1, false, 1);
     // @h name=c04_core_l2 props=C04,C11,C05,C03 tier=extended kind=proved cfg=L2w8 timeout=1500 kani_args="--no-memory-safety-checks --no-undefined-function-checks" funcs=hss_sign_core contract="same, valid 2-level lists"
     protocol_harness!(c04_core_l2, false, 2);
